@@ -236,14 +236,15 @@ def check_case(c):
             out2 = run_bane(path2, c2, ci2, grid, box, cores, stripes)
             b2, r2 = (np.asarray(a, dtype=np.float64) for a in out2)
             both = np.isfinite(bkg) & np.isfinite(b2)
-            if not np.array_equal(np.isfinite(bkg), np.isfinite(b2)):
+            bothr = np.isfinite(rms) & np.isfinite(r2)      # near blanks the noise may be blank where the background is not
+            if not (np.array_equal(np.isfinite(bkg), np.isfinite(b2)) and np.array_equal(np.isfinite(rms), np.isfinite(r2))):
                 res.bad(c["relation"] + "-blank-pattern", "%s: the pattern of blank map pixels changes" % what, **tags)
             eps32 = float(np.finfo(np.float32).eps)
             if c["relation"] == "shift":
                 mag = max(scale, abs(cc) + scale)
                 t = 4 * eps32 * mag + 1e-9 * abs(cc)
                 db = float(np.max(np.abs((b2 - cc) - bkg)[both])) if both.any() else 0.0
-                dr = float(np.max(np.abs(r2 - rms)[both])) if both.any() else 0.0
+                dr = float(np.max(np.abs(r2 - rms)[bothr])) if bothr.any() else 0.0
                 res.stat("shift_dbkg", db)
                 res.stat("shift_drms", dr)
                 if not db <= t:
@@ -254,14 +255,14 @@ def check_case(c):
             elif c["relation"] == "reencode":
                 tb = 1e-5 * scale
                 db = float(np.max(np.abs(b2 - bkg)[both])) if both.any() else 0.0
-                dr = float(np.max(np.abs(r2 - rms)[both])) if both.any() else 0.0
+                dr = float(np.max(np.abs(r2 - rms)[bothr])) if bothr.any() else 0.0
                 if not (db <= tb and dr <= tb):
                     res.bad("reencode", "%s: the same image stored with BSCALE=%r as %d-D under the same file name gives maps "
                             "differing by %.3g (bkg) / %.3g (rms)" % (what, c2["bscale"], c2["ndim"], db, dr), **tags)
             else:
                 tb = 1e-5 * abs(k) * scale
                 db = float(np.max(np.abs(b2 - k * bkg)[both])) if both.any() else 0.0
-                dr = float(np.max(np.abs(r2 - abs(k) * rms)[both])) if both.any() else 0.0
+                dr = float(np.max(np.abs(r2 - abs(k) * rms)[bothr])) if bothr.any() else 0.0
                 if not db <= tb:
                     res.bad("scale-bkg", "%s: scaling by %g: background differs from k*bkg by %.3g" % (what, k, db), **tags)
                 if not dr <= tb:
